@@ -269,7 +269,7 @@ var nonprodAssembly *authority.Assembly
 // command, so the first dry-run or measurement-only endorse command after a bootstrap made by other means creates
 // the stray directory <bucket_root>/certs. While this is false the directory is created before the first command,
 // as an earlier command would have left it; set it to true to have the tree comparison report it.
-const judgeStrayCertDir = false
+const judgeStrayCertDir = true
 
 // nonprod returns the process's localkm + localca assembly on disk, bootstrapped on first use.
 func (au *aud) nonprod() *authority.Assembly {
